@@ -23,6 +23,10 @@ type Merger struct {
 
 	less    func(a, b *sam.Record) bool
 	readers []*reader
+
+	// err is the first error other than io.EOF returned by
+	// a source Reader. It ends the merge.
+	err error
 }
 
 type reader struct {
@@ -94,6 +98,9 @@ func NewMerger(less func(a, b *sam.Record) bool, src ...*Reader) (*Merger, error
 			continue
 		}
 		rec, err := r.Read()
+		if err != nil && err != io.EOF && m.err == nil {
+			m.err = err
+		}
 		readers[i] = reader{id: i, r: r, head: rec, err: err}
 		m.readers[i] = &readers[i]
 	}
@@ -121,7 +128,13 @@ func (m *Merger) Header() *sam.Header {
 // Read returns the next sam.Record in the BAM stream.
 //
 // The Read behaviour will depend on the underlying Readers.
+// An error returned by an underlying Reader is returned by
+// Read, and by all subsequent calls, once the records read
+// before it have been returned.
 func (m *Merger) Read() (rec *sam.Record, err error) {
+	if m.err != nil {
+		return nil, m.err
+	}
 	if len(m.readers) == 0 {
 		return nil, io.EOF
 	}
@@ -138,6 +151,10 @@ func (m *Merger) cat() (rec *sam.Record, err error) {
 		m.readers = m.readers[1:]
 		err = nil
 	}
+	if err != nil {
+		m.err = err
+		return nil, err
+	}
 	if rec == nil {
 		return m.Read()
 	}
@@ -151,6 +168,8 @@ func (m *Merger) nextBySortOrder() (rec *sam.Record, err error) {
 	reader.head, reader.err = reader.r.Read()
 	if reader.err == nil {
 		m.push(reader)
+	} else if reader.err != io.EOF {
+		m.err = reader.err
 	}
 	if rec == nil {
 		return m.Read()
